@@ -39,7 +39,8 @@ vars == <<cfg, in, pc, ai, cj, sigReq, hasSig, errs, oks, verdict, ret, step, ba
 
 Conf(recip, irt, t) == [recip |-> recip, irt |-> irt, nooa |-> t, m |-> "bearer"]
 ConfM(recip, irt, t, m) == [recip |-> recip, irt |-> irt, nooa |-> t, m |-> m]   \* m: bearer | hok | sv | none (no Method attribute)
-Assn(signed, iss, confs, auds, t) == [signed |-> signed, iss |-> iss, confs |-> confs, auds |-> auds, time |-> t]
+\* time: the assertion's IssueInstant; cond: its Conditions window (NotBefore / NotOnOrAfter); "out" = an hour outside
+Assn(signed, iss, confs, auds, t) == [signed |-> signed, iss |-> iss, confs |-> confs, auds |-> auds, time |-> t, cond |-> "in"]
 
 GoodConf == Conf("eq", "id1", "in")
 GoodAssn(signed) == Assn(signed, "eq", <<GoodConf>>, <<"eq">>, "in")
@@ -93,6 +94,11 @@ ArtC03   == { [Base EXCEPT !.entry = "artifact", !.art = [irt |-> "match", iss |
                 i \in {"eq", "wrong", "prefix", "empty", "absent"}, s \in {"Success", "Requester", "absent"},
                 sg \in BOOLEAN, rs \in BOOLEAN, d \in {"eq", "wrong", "absent"} }
 
+\* the Response inside an ArtifactResponse is examined like any other, whoever signed the envelope
+ArtInner == { [Base EXCEPT !.entry = "artifact", !.art.signed = sg, !.signed = rs, !.assns[1].signed = as, !.rIss = i, !.status = st] :
+                sg \in BOOLEAN, rs \in BOOLEAN, as \in BOOLEAN, i \in {"eq", "wrong", "slash", "case", "empty", "absent"},
+                st \in {"Success", "Requester"} }
+
 CfgsC03 == { [BaseCfg EXCEPT !.eidSet = e, !.audVal = a, !.cur = c, !.allowIdp = i] :
                e \in BOOLEAN, a \in {"none", "ok", "fail"}, c \in {"acs", "query", "rel"}, i \in BOOLEAN }
 CfgsC03small == { BaseCfg, [BaseCfg EXCEPT !.cur = "query"], [BaseCfg EXCEPT !.cur = "rel"], [BaseCfg EXCEPT !.eidSet = FALSE],
@@ -105,7 +111,7 @@ InitC03q == \/ /\ cfg \in NoIdentCfgs /\ in \in NoIdentIns
             \/ /\ cfg \in CfgsC03
                /\ in \in Singles(Base) \cup Singles(Unsigned(Base)) \cup TwoConfs \cup TwoAssns \cup NoConfs \cup MethodConfs
             \/ /\ cfg \in CfgsC03small
-               /\ in \in Pairs(Base) \cup ArtC03
+               /\ in \in Pairs(Base) \cup ArtC03 \cup ArtInner
             \/ /\ cfg \in {BaseCfg, [BaseCfg EXCEPT !.cur = "query"], [BaseCfg EXCEPT !.cur = "rel"]}
                /\ in \in Pairs(Unsigned(Base))
                /\ in.dest # "eq"        \* the pairs of the unsigned layout that involve Destination
@@ -114,7 +120,7 @@ InitC03q == \/ /\ cfg \in NoIdentCfgs /\ in \in NoIdentIns
 InitC03t == \/ /\ cfg \in NoIdentCfgs /\ in \in NoIdentIns
             \/ /\ cfg \in CfgsC03
                /\ in \in Singles(Base) \cup Singles(Unsigned(Base)) \cup TwoConfs \cup TwoAssns \cup NoConfs \cup MethodConfs
-                        \cup Pairs(Base) \cup ArtC03
+                        \cup Pairs(Base) \cup ArtC03 \cup ArtInner
             \/ /\ cfg \in CfgsC03small
                /\ in \in Pairs(Unsigned(Base)) \cup { [x EXCEPT !.entry = "post"] : x \in Singles(Base) \cup Pairs(Base) }
 
@@ -169,11 +175,13 @@ XVals(f) == CASE f = "auds" -> { <<"eq">>, <<"wrong">>, <<"prefix">> }
               [] OTHER -> { "eq", "wrong", "prefix" }
 XAddr(b) == UNION { { Vary(b, f, v) : v \in XVals(f) } : f \in Fields }
 XIrt(b)  == { [b EXCEPT !.rIRT = r, !.assns[1].confs[1].irt = c] : r \in {"id1", "other", "absent"}, c \in {"id1", "other", "absent"} }
-XTime(b) == { b, [b EXCEPT !.rTime = "out"], [b EXCEPT !.assns[1].time = "out"], [b EXCEPT !.assns[1].confs[1].nooa = "out"] }
+XTime(b) == { b, [b EXCEPT !.rTime = "out"], [b EXCEPT !.assns[1].time = "out"], [b EXCEPT !.assns[1].cond = "out"],
+              [b EXCEPT !.assns[1].confs[1].nooa = "out"] }
 XSet == UNION { UNION { UNION { XTime(z) : z \in XIrt(y) } : y \in XAddr(x) } : x \in XBases }
-CfgsXq == { [BaseCfg EXCEPT !.allowIdp = a, !.outstanding = o] : a \in BOOLEAN, o \in {{"id1"}, {}} }
-CfgsXt == { [BaseCfg EXCEPT !.allowIdp = a, !.outstanding = o, !.cur = c, !.eidSet = e] :
-              a \in BOOLEAN, o \in {{"id1"}, {"id1", "id2"}, {}}, c \in {"acs", "rel"}, e \in BOOLEAN }
+\* (the application's own audience validator, when it says yes, replaces the audience comparison - and nothing else)
+CfgsXq == { [BaseCfg EXCEPT !.allowIdp = a, !.outstanding = o, !.audVal = v] : a \in BOOLEAN, o \in {{"id1"}, {}}, v \in {"none", "ok"} }
+CfgsXt == { [BaseCfg EXCEPT !.allowIdp = a, !.outstanding = o, !.cur = c, !.eidSet = e, !.audVal = v] :
+              a \in BOOLEAN, o \in {{"id1"}, {"id1", "id2"}, {}}, c \in {"acs", "rel"}, e \in BOOLEAN, v \in {"none", "ok"} }
 InitXq == cfg \in CfgsXq /\ in \in XSet
 InitXt == cfg \in CfgsXt /\ in \in XSet
 
@@ -261,7 +269,7 @@ AssnIssuer == /\ pc = "AssnIssuer" /\ Keep /\ UNCHANGED badStatus
               /\ IF A.iss # "eq" THEN FailAssn("AssnIssuer") ELSE Stay("ConfLoop")
 \* :1188-1225 every confirmation: InResponseTo (unless IdP-initiated), Recipient, NotOnOrAfter
 ConfLoop == /\ pc = "ConfLoop" /\ Keep /\ UNCHANGED badStatus
-            /\ IF cj > Len(A.confs) THEN Stay("Audience")
+            /\ IF cj > Len(A.confs) THEN (IF A.cond = "out" THEN FailAssn("Conditions") ELSE Stay("Audience"))
                ELSE LET c == A.confs[cj] IN
                     IF ~cfg.allowIdp /\ Norm(c.irt) \notin cfg.outstanding THEN FailAssn("ConfInResponseTo")
                     ELSE IF c.recip # "eq" THEN FailAssn("ConfRecipient")
@@ -321,12 +329,12 @@ C04MustReject == RespIrtBad \/ ArtIrtBad \/ \A k \in DOMAIN in.assns : AssnIrtBa
 \* everything else about the message is valid (times inside, a trusted signature covers the assertion)
 Covered(a) == in.signed \/ a.signed \/ (~Browser /\ in.art.signed)
 TimesIn == in.rTime = "in" /\ in.art.time = "in" /\ \A k \in DOMAIN in.assns :
-              in.assns[k].time = "in" /\ \A j \in DOMAIN in.assns[k].confs : in.assns[k].confs[j].nooa = "in"
+              in.assns[k].time = "in" /\ in.assns[k].cond = "in" /\ \A j \in DOMAIN in.assns[k].confs : in.assns[k].confs[j].nooa = "in"
 
 \* C02, as far as this module distinguishes instants ("out" = an hour outside): the Response
 \* IssueInstant, or every assertion's own IssueInstant / a confirmation's NotOnOrAfter
 TimeBad == \/ in.rTime = "out"
-           \/ \A k \in DOMAIN in.assns : \/ in.assns[k].time = "out"
+           \/ \A k \in DOMAIN in.assns : \/ in.assns[k].time = "out" \/ in.assns[k].cond = "out"
                                           \/ \E j \in DOMAIN in.assns[k].confs : in.assns[k].confs[j].nooa = "out"
 
 MustReject == C03MustReject \/ C04MustReject
